@@ -41,6 +41,33 @@ fn emit(id: usize, f: impl FnOnce() -> String) {
     }
 }
 
+// a SECOND, unrelated set of translations in the same process (as a widget crate with its own i18n would bring): its pages are
+// rendered first; what the pages of the main module embed must not be influenced by it
+mod other {
+    leptos_i18n::declare_locales! {
+        path: leptos_i18n,
+        default: "en",
+        locales: ["en", "fr"],
+        en: { k0001: "OTHER MODULE (en)", z: "other z en" },
+        fr: { k0001: "OTHER MODULE (fr)", z: "other z fr" },
+    }
+}
+fn other_module_pages() -> String {
+    use other::i18n as o;
+    let owner = Owner::new();
+    let out = owner.with(|| {
+        let v = view! { <o::I18nContextProvider enable_cookie=false ssr_lang_header_getter=leptos_i18n::context::UseLocalesOptions::default().ssr_lang_header_getter(|| None)>
+            {move || { let i18n = o::use_i18n(); let mut views: Vec<AnyView> = vec![];
+                views.push((leptos_i18n::t!(i18n, k0001))().into_any());
+                views.push(leptos_i18n::td!(o::Locale::fr, z).into_any());
+                views }}
+        </o::I18nContextProvider> };
+        v.to_html()
+    });
+    std::mem::forget(owner);
+    out
+}
+
 __VARIANTS__
 __STEXEC__
 
@@ -50,6 +77,7 @@ fn main() {
         eprintln!("PANIC thread={:?} {}\n{}", std::thread::current().name(), info, std::backtrace::Backtrace::force_capture());
     }));
     st_exec::init();
+    emit(9999, other_module_pages);
 __CALLS__
 }
 '''
@@ -167,6 +195,10 @@ def check(run):
             run.violation("build;" + p["name"], "the dynamic_load + ssr probe does not compile", {"build_log": r["build_log"] or log[-3000:]})
             continue
         for ev in r["events"]:
+            if ev["variant"] == 9999:        # the other module's pages (rendered first, not examined themselves)
+                if ev["outcome"] != "Ok":
+                    raise vp.ToolError("the second i18n module of the probe did not render: %s" % ev.get("html", "")[:300])
+                continue
             touched = [[loc, ns] for loc, ns in p["variants"][ev["variant"]]]
             base = {"ev": "Script", "case": pi + 1, "variant": ev["variant"], "touched": touched, "outcome": ev["outcome"]}
             if ev["outcome"] != "Ok":
